@@ -5,6 +5,11 @@ the pinned tables.  A shape is a complete well-formed encoding plus the list of 
 """
 
 
+class Unbuildable(Exception):
+    """the live tables do not allow this variant to be built (e.g. a valid selector value without a union
+    member): the variant is skipped here; finding such incoherence is C20's (and C06's) business"""
+
+
 class Gen:
     def __init__(self, L):
         self.T = L["types"]
@@ -99,7 +104,27 @@ class Gen:
             st = dict(flds)[sn]
             selcands[sn] = self.prim_values(st)
         base = {sn: selcands[sn][0] for sn in selector_names}
+        _build = build
+
+        def build(*a, **k):  # noqa: F811  (unbuildable variants are skipped)
+            try:
+                return _build(*a, **k)
+            except Unbuildable:
+                return None
+
         out = [build(base)]
+        if out[0] is None:
+            # the default selector value has no member: try the others as base
+            for sn in selector_names:
+                for v in selcands[sn][1:]:
+                    cand = dict(base)
+                    cand[sn] = v
+                    if build(cand) is not None:
+                        base = cand
+                        break
+            out = [build(base)]
+            if out[0] is None:
+                raise Unbuildable(t)
         for sn in selector_names:
             for v in selcands[sn][1:]:
                 sv = dict(base)
@@ -126,6 +151,8 @@ class Gen:
         seen = set()
         res = []
         for o in out:
+            if o is None:
+                continue
             if o not in seen:
                 seen.add(o)
                 res.append(o)
@@ -142,7 +169,7 @@ class Gen:
         if chosen is None:
             chosen = fallback
         if chosen is None:
-            raise KeyError((t, sel))
+            raise Unbuildable((t, sel))
         mt = chosen["type"]
         if mt is None:
             return b""
